@@ -173,6 +173,42 @@ theorem evalList_and_at (ρ : Nat → Outcome) (rs : List Rule) (k : Nat) (hk : 
   rw [← hsplit] at this
   exact this
 
+/-! ### unfolding any rule array one element at a time -/
+
+/-- an AND-type element in front: the array is OK exactly when it is and the rest is -/
+theorem evalList_cons_and_ok (ρ : Nat → Outcome) (r : Rule) (r' : Rule) (rest : List Rule) (hr : r.isOr = false) :
+    (evalList ρ (r :: r' :: rest)).isOk ↔ ((evalRule ρ r).isOk ∧ (evalList ρ (r' :: rest)).isOk) := by
+  simp only [evalList]
+  by_cases hst : stops r (evalRule ρ r) = true
+  · rw [if_pos hst]
+    have hnot : ¬ (evalRule ρ r).isOk := fun hok => by
+      have := (stops_and_iff r _ hr).mpr hok
+      rw [this] at hst; cases hst
+    exact ⟨fun h => absurd h hnot, fun h => absurd h.1 hnot⟩
+  · rw [if_neg hst]
+    have hok : (evalRule ρ r).isOk := (stops_and_iff r _ hr).mp (by simpa using hst)
+    rw [isOk_trace]
+    exact ⟨fun h => ⟨hok, h⟩, fun h => h.2⟩
+
+/-- an OR-type element in front: OK when it is, or when it is not applicable and the rest is OK -/
+theorem evalList_cons_or_ok (ρ : Nat → Outcome) (r : Rule) (r' : Rule) (rest : List Rule) (hr : r.isOr = true) :
+    (evalList ρ (r :: r' :: rest)).isOk ↔ ((evalRule ρ r).isOk ∨ ((evalRule ρ r).isNa ∧ (evalList ρ (r' :: rest)).isOk)) := by
+  simp only [evalList]
+  by_cases hst : stops r (evalRule ρ r) = true
+  · rw [if_pos hst]
+    have hnna : ¬ (evalRule ρ r).isNa := fun h => by
+      have := (stops_or_iff r _ hr).mpr h
+      rw [this] at hst; cases hst
+    exact ⟨fun h => Or.inl h, fun h => h.elim id (fun h2 => absurd h2.1 hnna)⟩
+  · rw [if_neg hst]
+    have hna : (evalRule ρ r).isNa := (stops_or_iff r _ hr).mp (by simpa using hst)
+    rw [isOk_trace]
+    constructor
+    · intro h; exact Or.inr ⟨hna, h⟩
+    · rintro (h | ⟨_, h⟩)
+      · exact absurd h.2 (by rw [hna.2]; simp)
+      · exact h
+
 /-! ### only the rules listed in a tree are consulted -/
 
 mutual
